@@ -30,12 +30,16 @@ TARGETS = [
     ("K", "internal/compile_parallel.go", "compiler.compileMap", "compileMap", "internal"),
     ("K", "internal/compile_parallel.go", "compiler.compileParallel", "compileParallel", "internal"),
     ("K", "internal/compile_parallel.go", "compiler.compileParallelTaskFn", "compileParallelTaskFn", "internal"),
+    ("K", "internal/compile_parallel.go", "compiler.applySliceOptions", "applySliceOptions", "internal"),
+    ("K", "internal/compile_parallel.go", "compiler.compileMapEnd", "compileMapEnd", "internal"),
     ("K", "internal/compile_parallel.go", "compiler.compileSliceEnd", "compileSliceEnd", "internal"),
     ("K", "internal/compile_parallel.go", "checkParallelTask", "checkParallelTask", "internal"),
     ("K", "internal/gen.go", "printImportAlias", "printImportAlias", "internal"),
     ("K", "internal/gen.go", "generator.typeID", "(*generator).typeID", "internal"),
     ("K", "internal/gen.go", "generator.predID", "predID", "internal"),
     ("K", "internal/gen.go", "generator.GenerateFile", "(*generator).GenerateFile", "internal"),
+    ("K", "internal/types.go", "isContext", "isContext", "internal"),
+    ("K", "internal/types.go", "isError", "isError", "internal"),
     ("K", "internal/buildtag.go", "writeInvertedCffTag", "writeInvertedCffTag", "internal"),
     ("K", "cmd/cff/main.go", "genFilename", "genFilename", "cmd/cff"),
     ("S", "scheduler/scheduler.go", "worker", "worker", "scheduler"),
